@@ -485,14 +485,32 @@ func (serviceCore *ServiceCore) FilterDatasets(
 	result := make([]server.DatasetName, 0)
 
 	for _, dataset := range datasets {
+		resource := "/datasets/" + dataset.Name
+		granted := false
 		for _, ac := range acl {
-			if serviceCore.CheckGranted(ac, "/datasets/"+dataset.Name, "read") {
-				result = append(result, dataset)
+			if serviceCore.CheckDenied(ac, resource, "read") {
+				granted = false
+				break
 			}
+			if serviceCore.CheckGranted(ac, resource, "read") {
+				granted = true
+			}
+		}
+		if granted {
+			result = append(result, dataset)
 		}
 	}
 
 	return result, nil
+}
+
+// CheckDenied reports whether ac is a deny entry covering the action on the resource,
+// i.e. whether the same entry without its Deny flag would have granted it.
+func (serviceCore *ServiceCore) CheckDenied(ac *AccessControl, resource string, action string) bool {
+	if ac == nil || !ac.Deny {
+		return false
+	}
+	return serviceCore.CheckGranted(&AccessControl{Resource: ac.Resource, Action: ac.Action}, resource, action)
 }
 
 func (serviceCore *ServiceCore) CheckGranted(ac *AccessControl, resource string, action string) bool {
